@@ -237,8 +237,9 @@ func genWM(r *rand.Rand) line {
 type planMsg struct {
 	id    uint64
 	topic int // message-level topic number, -1 = none
-	size  int
+	size  int // VerifTotalSize of msg
 	part  int
+	msg   kafka.Message // the message as submitted (all attributes set)
 }
 
 const (
@@ -249,6 +250,7 @@ const (
 
 type planCall struct {
 	msgs     []planMsg
+	times    string // time profile of the call (feature tag times=...)
 	ctxMode  int
 	ctxDelay time.Duration
 	pause    time.Duration // sleep before the call (non-det scenarios)
@@ -350,6 +352,178 @@ func genReaction(r *rand.Rand, forceFail bool) fakert.Reaction {
 	return re
 }
 
+// callTimes draws the time profile of a call of n messages.
+func callTimes(r *rand.Rand, n int) (string, []time.Time) {
+	ts := make([]time.Time, n)
+	base := time.Unix(1600000000+int64(r.Intn(100000000)), int64(r.Intn(1000000000)))
+	label := ""
+	switch k := r.Intn(20); {
+	case k < 2:
+		label = "zero"
+	case k < 5:
+		label = "inc"
+		for i := range ts {
+			ts[i] = base.Add(time.Duration(i) * time.Millisecond)
+		}
+	case k < 7:
+		label = "equal"
+		for i := range ts {
+			ts[i] = base
+		}
+	case k < 11:
+		label = "dec"
+		for i := range ts {
+			ts[i] = base.Add(-time.Duration(i) * time.Millisecond)
+		}
+	case k < 14:
+		label = "dec-subms"
+		for i := range ts {
+			ts[i] = base.Add(-time.Duration(i) * time.Microsecond)
+		}
+	case k < 17:
+		label = "far"
+		y2100 := time.Date(2100, 6, 1, 12, 0, 0, 0, time.UTC)
+		y2001 := time.Date(2001, 2, 3, 4, 5, 6, 7000000, time.UTC)
+		for i := range ts {
+			switch i % 3 {
+			case 0:
+				ts[i] = y2100
+			case 1:
+				ts[i] = y2001
+			}
+		}
+	default:
+		label = "mixed"
+		for i := range ts {
+			if r.Intn(2) == 0 {
+				ts[i] = base.Add(time.Duration(r.Intn(2000000)-1000000) * time.Microsecond)
+			}
+		}
+	}
+	if n == 0 {
+		label = ""
+	}
+	return label, ts
+}
+
+var headerKeys = []string{"", "a", "k1", "hdr", "x-y"}
+
+// decorate sets every attribute of the message of m (key, headers, value
+// shape, time, caller-set Offset / Partition) and then pads the value so that
+// VerifTotalSize hits target when the id travels in the value. idInValue
+// forces that shape (used for the message that must be one byte too large).
+func (p *plan) decorate(r *rand.Rand, m *planMsg, target int, tm time.Time, idInValue bool) {
+	km := kafka.Message{Time: tm}
+	if m.topic >= 0 {
+		km.Topic = fmt.Sprintf("t%d", m.topic)
+	}
+	// The balancer reads the partition from a 1-byte key; on single-partition
+	// topics the key is free.
+	t := m.topic
+	if t < 0 {
+		t = p.wtopic
+	}
+	shortKey := []byte{byte(m.part)}
+	km.Key = shortKey
+	if t >= 0 && p.topics[t] == 1 && m.part == 0 {
+		switch r.Intn(4) {
+		case 0:
+			km.Key = nil
+		case 1:
+			km.Key = []byte{}
+		case 2:
+			km.Key = make([]byte, 2+r.Intn(15))
+			r.Read(km.Key)
+		}
+	}
+	if r.Intn(10) < 3 {
+		for i, n := 0, 1+r.Intn(3); i < n; i++ {
+			h := kafka.Header{Key: headerKeys[r.Intn(len(headerKeys))]}
+			switch r.Intn(4) {
+			case 0: // nil value
+			case 1:
+				h.Value = []byte{}
+			default:
+				h.Value = make([]byte, 1+r.Intn(6))
+				r.Read(h.Value)
+			}
+			km.Headers = append(km.Headers, h)
+		}
+	}
+	if r.Intn(5) == 0 { // caller-set Offset / Partition: the writer must ignore them
+		km.Offset = []int64{-1, -12345, 1 << 40, r.Int63(), 7}[r.Intn(5)]
+		km.Partition = []int{-1, 1 << 30, r.Intn(3), 7, -1 << 31}[r.Intn(5)]
+		if km.Offset == 0 && km.Partition == 0 {
+			km.Offset = 3
+		}
+	}
+	idb := make([]byte, 8)
+	binary.BigEndian.PutUint64(idb, m.id)
+	vid := !idInValue && r.Intn(10) == 0
+	if vid { // id in header "vid", value nil / empty / shorter than 8 bytes
+		switch r.Intn(3) {
+		case 0:
+			km.Value = nil
+		case 1:
+			km.Value = []byte{}
+		default:
+			km.Value = make([]byte, 1+r.Intn(7))
+			r.Read(km.Value)
+		}
+		km.Headers = append(km.Headers, kafka.Header{Key: fakert.VidHeader, Value: idb})
+	} else {
+		km.Value = idb
+	}
+	size := func() int { return int(kafka.VerifTotalSize(km)) }
+	limit := target
+	if vid || (size() <= p.batchBytes && target <= p.batchBytes && r.Intn(2) == 0) {
+		limit = p.batchBytes // any size that fits a batch will do
+	}
+	if size() > limit { // too big with its decoration: drop headers, then the long key
+		if vid {
+			km.Headers = km.Headers[len(km.Headers)-1:]
+		} else {
+			km.Headers = nil
+		}
+		if size() > limit {
+			km.Key = shortKey
+		}
+	}
+	if !vid && size() < target {
+		km.Value = make([]byte, 8+target-size())
+		copy(km.Value, idb)
+	}
+	m.size = size()
+	m.msg = km
+	f := p.feat
+	if len(km.Headers) > 0 && !(vid && len(km.Headers) == 1) {
+		f["headers"] = true
+	}
+	switch {
+	case km.Key == nil:
+		f["key-nil"] = true
+	case len(km.Key) == 0:
+		f["key-empty"] = true
+	case len(km.Key) > 1:
+		f["key-long"] = true
+	}
+	if vid {
+		f["value-short"] = true
+	}
+	if km.Offset != 0 || km.Partition != 0 {
+		f["caller-offset-partition"] = true
+	}
+}
+
+// plainMsg builds the message of the fixed scenarios: 1-byte key, id in the
+// value, total size 40, the given time.
+func plainMsg(id uint64, tm time.Time) planMsg {
+	v := make([]byte, 16)
+	binary.BigEndian.PutUint64(v, id)
+	km := kafka.Message{Key: []byte{0}, Value: v, Time: tm}
+	return planMsg{id: id, topic: -1, part: 0, size: int(kafka.VerifTotalSize(km)), msg: km}
+}
+
 func genPlan(r *rand.Rand) *plan {
 	p := &plan{feat: map[string]bool{}, faults: map[fakert.TP][]fakert.Reaction{}}
 	nt := 1 + r.Intn(3)
@@ -405,6 +579,7 @@ func genPlan(r *rand.Rand) *plan {
 			t0 = p.wtopic
 		}
 		p0 := r.Intn(p.topics[t0])
+		targets := make([]int, n)
 		for i := 0; i < n; i++ {
 			*seq++
 			m := planMsg{id: uint64(g)<<20 + *seq, topic: -1}
@@ -420,20 +595,20 @@ func genPlan(r *rand.Rand) *plan {
 			} else {
 				m.part = r.Intn(p.topics[t])
 			}
-			m.size = pickSize(r, p.batchBytes)
+			targets[i] = pickSize(r, p.batchBytes)
 			c.msgs = append(c.msgs, m)
 		}
+		large := -1
 		if n > 0 && r.Intn(12) == 0 { // one byte over BatchBytes: first / middle / last
-			var i int
 			switch r.Intn(3) {
 			case 0:
-				i = 0
+				large = 0
 			case 1:
-				i = n / 2
+				large = n / 2
 			default:
-				i = n - 1
+				large = n - 1
 			}
-			c.msgs[i].size = p.batchBytes + 1
+			targets[large] = p.batchBytes + 1
 		}
 		if n > 0 && r.Intn(16) == 0 { // topic conflict
 			i := r.Intn(n)
@@ -445,6 +620,11 @@ func genPlan(r *rand.Rand) *plan {
 				c.msgs[i].topic = -1
 				c.msgs[i].part = 0
 			}
+		}
+		var times []time.Time
+		c.times, times = callTimes(r, n)
+		for i := range c.msgs {
+			p.decorate(r, &c.msgs[i], targets[i], times[i], i == large)
 		}
 		if !p.det && !p.async && r.Intn(10) == 0 {
 			if r.Intn(2) == 0 {
@@ -595,6 +775,9 @@ func (p *plan) planFeatures() {
 			if c.ctxMode != ctxNone {
 				f["ctx-cancel"] = true
 			}
+			if c.times != "" {
+				f["times="+c.times] = true
+			}
 			valid := true
 			for _, m := range c.msgs {
 				if m.size > p.batchBytes {
@@ -666,6 +849,35 @@ type scRun struct {
 
 	relOnce sync.Once
 	release func()
+
+	anomMu sync.Mutex
+	anom   string // first Go-side anomaly (ANOMALY:...), reported when there is no HANG / PANIC
+	anomD  string // its description
+}
+
+func (s *scRun) anomaly(kind, detail string) {
+	s.anomMu.Lock()
+	defer s.anomMu.Unlock()
+	if s.anom == "" {
+		s.anom, s.anomD = "ANOMALY:"+kind, detail
+	}
+}
+
+// checkCompletion verifies the attributes the writer sets on the messages of a
+// successful completion against what the fake acknowledged.
+func (s *scRun) checkCompletion(msgs []kafka.Message) {
+	for i := range msgs {
+		m := &msgs[i]
+		at, ok := s.fake.Acked(msgID(*m))
+		if !ok {
+			continue
+		}
+		if m.Topic != at.TP.Topic || m.Partition != at.TP.Partition || m.Offset != at.Offset {
+			s.anomaly("completion-attrs", fmt.Sprintf("id %x: completion has %s/%d@%d, acknowledged at %s/%d@%d",
+				msgID(*m), m.Topic, m.Partition, m.Offset, at.TP.Topic, at.TP.Partition, at.Offset))
+			return
+		}
+	}
 }
 
 // fail records the first failure (HANG:... / PANIC:...) and aborts the scenario.
@@ -702,10 +914,8 @@ func (s *scRun) watch(done <-chan struct{}) bool {
 }
 
 func msgID(m kafka.Message) uint64 {
-	if len(m.Value) < 8 {
-		return 0
-	}
-	return binary.BigEndian.Uint64(m.Value)
+	id, _ := fakert.MessageID(m.Value, m.Headers)
+	return id
 }
 
 func msgIDs(ms []kafka.Message) string {
@@ -719,16 +929,10 @@ func msgIDs(ms []kafka.Message) string {
 func (s *scRun) buildMsgs(c *planCall) []kafka.Message {
 	msgs := make([]kafka.Message, len(c.msgs))
 	for i, m := range c.msgs {
-		v := make([]byte, m.size-24)
-		binary.BigEndian.PutUint64(v, m.id)
-		km := kafka.Message{Key: []byte{byte(m.part)}, Value: v}
-		if m.topic >= 0 {
-			km.Topic = fmt.Sprintf("t%d", m.topic)
+		msgs[i] = m.msg
+		if int(kafka.VerifTotalSize(msgs[i])) != m.size || msgID(msgs[i]) != m.id {
+			panic(fmt.Sprintf("e2e message %x: size %d, planned %d", m.id, kafka.VerifTotalSize(msgs[i]), m.size))
 		}
-		if int(kafka.VerifTotalSize(km)) != m.size {
-			panic(fmt.Sprintf("e2e message size %d, planned %d", kafka.VerifTotalSize(km), m.size))
-		}
-		msgs[i] = km
 	}
 	return msgs
 }
@@ -875,6 +1079,15 @@ func runScenario(p *plan, release func()) line {
 	}
 	s := &scRun{p: p, hist: hist, fake: fake, abort: make(chan struct{}), release: release}
 	defer s.relOnce.Do(release)
+	expected := map[uint64]kafka.Message{}
+	for _, calls := range append(append([][]planCall(nil), p.callers...), p.afterClose) {
+		for _, c := range calls {
+			for _, m := range c.msgs {
+				expected[m.id] = m.msg
+			}
+		}
+	}
+	fake.SetExpected(expected)
 
 	w := &kafka.Writer{
 		Addr:            kafka.TCP("fake:9092"),
@@ -900,6 +1113,9 @@ func runScenario(p *plan, release func()) line {
 			}
 			ids := msgIDs(msgs)
 			hist.Do(func(int) string { return fmt.Sprintf("K%s:%s", o, ids) })
+			if err == nil {
+				s.checkCompletion(msgs)
+			}
 		},
 	}
 	if p.wtopic >= 0 {
@@ -936,6 +1152,15 @@ func runScenario(p *plan, release func()) line {
 		s.mu.Lock()
 		res := s.result
 		s.mu.Unlock()
+		if d := fake.RecordAnomaly(); d != "" {
+			s.anomaly("record-attrs", d)
+		}
+		s.anomMu.Lock()
+		if res == "" && s.anom != "" {
+			res = s.anom
+			fmt.Fprintf(os.Stderr, "writer: %s %s: %s\n", p.cfg(), s.anom, s.anomD)
+		}
+		s.anomMu.Unlock()
 		if res == "" {
 			res = "ok"
 		}
@@ -1077,14 +1302,67 @@ func boundaryPlans() []*plan {
 					script = []fakert.Reaction{reset, pipe, rej}
 				}
 				p.faults[fakert.TP{Topic: "t0", Partition: 0}] = script
-				mk := func(id uint64) planMsg { return planMsg{id: id, topic: -1, size: 40, part: 0} }
+				base := time.Unix(1700000000, 0)
+				mk := func(id uint64) planMsg { return plainMsg(id, base.Add(-time.Duration(id)*time.Millisecond)) }
 				p.callers = [][]planCall{{
-					{msgs: []planMsg{mk(1), mk(2), mk(3)}},
-					{msgs: []planMsg{mk(4)}},
+					{msgs: []planMsg{mk(1), mk(2), mk(3)}, times: "dec"},
+					{msgs: []planMsg{mk(4)}, times: "dec"},
 				}}
 				p.planFeatures()
 				p.feat["boundary-code"] = true
 				p.feat["pos="+pos] = true
+				plans = append(plans, p)
+			}
+		}
+	}
+	return plans
+}
+
+// timeOrderPlans builds the fixed scenarios on the order inside a batch:
+// {sync, async} x {decreasing ms, decreasing sub-ms, set-then-zero} x {no
+// fault, batch appended twice}: one call of 4 messages (BatchSize 4), Close.
+func timeOrderPlans() []*plan {
+	base := time.Unix(1700000000, 500000000)
+	var plans []*plan
+	for _, async := range []bool{false, true} {
+		for _, prof := range []string{"dec", "dec-subms", "mixed"} {
+			for _, twice := range []bool{false, true} {
+				p := &plan{feat: map[string]bool{}, faults: map[fakert.TP][]fakert.Reaction{}}
+				p.topics = []int{1}
+				p.batchSize = 4
+				p.batchBytes = 1000
+				p.maxAttempts = 3
+				p.async = async
+				p.wtopic = 0
+				p.det = true
+				p.batchTimeout = 200 * time.Millisecond
+				if async {
+					p.batchTimeout = time.Hour
+				}
+				p.backoffMin = time.Millisecond
+				p.backoffMax = time.Millisecond
+				if twice {
+					p.faults[fakert.TP{Topic: "t0", Partition: 0}] = []fakert.Reaction{
+						{Kind: fakert.AppliedLost, Code: fakert.CodePipe}, {Kind: fakert.AppliedAcked}}
+				}
+				var msgs []planMsg
+				for i := 0; i < 4; i++ {
+					var tm time.Time
+					switch prof {
+					case "dec":
+						tm = base.Add(-time.Duration(i) * time.Millisecond)
+					case "dec-subms":
+						tm = base.Add(-time.Duration(i) * time.Microsecond)
+					default: // set, zero, earlier, zero
+						if i%2 == 0 {
+							tm = base.Add(-time.Duration(i) * time.Second)
+						}
+					}
+					msgs = append(msgs, plainMsg(uint64(i+1), tm))
+				}
+				p.callers = [][]planCall{{{msgs: msgs, times: prof}}}
+				p.planFeatures()
+				p.feat["time-order"] = true
 				plans = append(plans, p)
 			}
 		}
@@ -1425,6 +1703,7 @@ func main() {
 		plans[i].planFeatures()
 	}
 	plans = append(plans, boundaryPlans()...)
+	plans = append(plans, timeOrderPlans()...)
 	results := make([]line, len(plans))
 	sem := make(chan struct{}, *jobs)
 	var wg sync.WaitGroup
